@@ -182,11 +182,11 @@ class ArraySpec(object):
 # user-code control
 
 
-class Secret(Exception):
+class VerifSecretError(Exception):
     """A non-Fault exception whose text carries a per-run secret token."""
 
 
-class SecretKeyError(KeyError):
+class VerifSecretKeyError(KeyError):
     pass
 
 
@@ -648,3 +648,6 @@ def encode_request(uni, in_prot, mname, args, wrappers=False, app=None,
 
 def wsdl_request():
     return Request('GET', '/', 'wsdl', None, b'', ('?wsdl', 'wsdl'))
+
+Secret = VerifSecretError
+SecretKeyError = VerifSecretKeyError
